@@ -58,7 +58,39 @@ def gen_group(rng, base, nser, t_origin):
     return out
 
 
-def gen_collection(rng):
+def gen_sliver(rng, step):
+    """one long interval reaching down into a grid cell, shorter ones ending higher, and a second group that starts in
+    that same cell just above the long interval's last sample: the level ranges overlap by a sliver, no grid level is
+    shared, so the second group is NOT linked to the first"""
+    c = float(rng.randint(20, 40)) * step * 2
+    top = c + rng.randint(15, 40) * step
+    n = rng.randint(6, 12)
+    a_end = c + rng.choice([0.125, 0.25]) * step
+    ys = [round((top - (top - a_end) * i / (n - 1)) * 64) / 64 for i in range(n)]
+    ys[-1] = a_end
+    t0 = 1.5e9 + rng.randint(0, 10**6)
+    main = [([t0 + 1800.0 * i for i in range(n)], ys)]
+    for _ in range(rng.randint(0, 2)):
+        st = top - rng.uniform(1, 5) * step
+        en = c + rng.uniform(3, 8) * step
+        m = rng.randint(3, 6)
+        t1 = 1.5e9 + rng.randint(0, 10**6)
+        main.append(([t1 + 1800.0 * i for i in range(m)], [round((st - (st - en) * i / (m - 1)) * 64) / 64 for i in range(m)]))
+    low = []
+    for _ in range(rng.randint(2, 3)):
+        st = c + rng.choice([0.5, 0.625, 0.75]) * step
+        en = c - rng.randint(3, 8) * step - rng.choice([0.25, 0.5]) * step
+        m = rng.randint(3, 6)
+        t1 = 1.5e9 + rng.randint(0, 10**6)
+        low.append(([t1 + 1800.0 * i for i in range(m)], [st] + [round((st - (st - en) * i / (m - 1)) * 64) / 64 for i in range(1, m)]))
+    series = main + low
+    member = [0] * len(main) + [1] * len(low)
+    return series, member
+
+
+def gen_collection(rng, step=None):
+    if step is not None and rng.random() < 0.12:
+        return gen_sliver(rng, step)
     nmain = rng.randint(2, 8)
     groups = [gen_group(rng, 100.0, nmain, 1.5e9)]
     # planted strays: strictly fewer series and a much shorter level range, far away in level
@@ -114,8 +146,8 @@ def run(ctx):
     ob_model = "kept intervals and aligned curve of get_series_time_offsets = model assemble over Rat"
     ob_meta = "same master curve and relative alignment under reordering / axis shifts / change of the internal zero"
     for _ in range(n):
-        series, member = gen_collection(rng)
         step = rng.choice([1.0, 0.5, 2.0])
+        series, member = gen_collection(rng, step)
         inp = {"function": "fit_offsets.get_series_time_offsets + re-origin", "series": series, "step": step}
         mod = ctx.driver.call("assemble.q", {"step": q2s(Fraction(step)), "series": [
             [[q2s(Fraction(t)), q2s(Fraction(h))] for t, h in zip(ts, hs)] for ts, hs in series]})
